@@ -66,6 +66,23 @@ def _is_generator(f):
     return False
 
 
+def _simple_generator(f) -> bool:
+    """a generator whose only yields are statements `yield e` and that has no return / await / yield from"""
+    for n in ast.walk(f):
+        if isinstance(n, (ast.YieldFrom, ast.Await, ast.Return)):
+            return False
+        if isinstance(n, ast.Yield):
+            if n.value is None:
+                return False
+    for n in ast.walk(f):
+        if isinstance(n, ast.Expr) and isinstance(n.value, ast.Yield):
+            continue
+    # every Yield must be the value of an Expr statement
+    stmts_y = sum(1 for n in ast.walk(f) if isinstance(n, ast.Expr) and isinstance(n.value, ast.Yield))
+    all_y = sum(1 for n in ast.walk(f) if isinstance(n, ast.Yield))
+    return stmts_y == all_y and all_y > 0
+
+
 def _calls_itself(f, name):
     for n in ast.walk(f):
         if isinstance(n, ast.Call) and ((isinstance(n.func, ast.Name) and n.func.id == name) or
@@ -221,7 +238,9 @@ class Inliner:
             if f"{rel}::{qual}" in base or not name.startswith("_") or name.startswith("__"):
                 continue
             a = f.args
-            if a.vararg or a.kwarg or _is_generator(f) or _calls_itself(f, name):
+            if a.vararg or a.kwarg or _calls_itself(f, name):
+                continue
+            if _is_generator(f) and not _simple_generator(f):
                 continue
             if any(isinstance(d, ast.Name) and d.id in ("property", "classmethod") for d in f.decorator_list):
                 continue
@@ -246,7 +265,7 @@ class Inliner:
                 return meths[fx.attr]
         return None
 
-    def expand(self, call, helper, bound):
+    def expand(self, call, helper, bound, generator=None):
         """-> (statements, result expression | None)"""
         self.counter += 1
         tag = f"{helper.name}_{self.counter}"
@@ -293,6 +312,22 @@ class Inliner:
         if env:
             sub = _Subst(env)
             body = [sub.visit(st) for st in body]
+        if generator is not None:
+            var, loop_body = generator
+
+            class _Y(ast.NodeTransformer):
+                def visit_Expr(self, n):
+                    if isinstance(n.value, ast.Yield):
+                        return [ast.Assign(targets=[ast.Name(id=var, ctx=ast.Store())], value=n.value.value, lineno=0, col_offset=0)] + copy.deepcopy(loop_body)
+                    return n
+
+                def visit_FunctionDef(self, n):
+                    return n
+            out = []
+            for st_ in body:
+                r = _Y().visit(st_)
+                out += r if isinstance(r, list) else [r]
+            return pre + out, None
         ret, done = f"__ret_{tag}", f"__done_{tag}"
         has_value = any(isinstance(n, ast.Return) and n.value is not None for st in body for n in ast.walk(st))
         if not any(_contains_return(st) for st in body):
@@ -332,12 +367,24 @@ class Inliner:
                     st.body = [inner_if]
                     changed = True
                     continue          # re-scan this statement: its body now holds a hoistable call
+            # `for x in <generator helper>(...): BODY` -- the helper's body with every `yield e` replaced by `x = e; BODY`
+            if isinstance(st, ast.For) and not st.orelse and isinstance(st.target, ast.Name) and isinstance(st.iter, ast.Call):
+                r_ = self.resolve(st.iter, cname)
+                if r_ is not None and r_[0] is not owner and _is_generator(r_[0]) \
+                        and not any(isinstance(x, (ast.Break, ast.Continue)) for b_ in st.body for x in ast.walk(b_)) \
+                        and self.sites.get(id(r_[0]), 0) < MAX_SITES:
+                    ex = self.expand(st.iter, r_[0], r_[1], generator=(st.target.id, st.body))
+                    if ex is not None:
+                        self.sites[id(r_[0])] = self.sites.get(id(r_[0]), 0) + 1
+                        stmts[i:i + 1] = ex[0] or [ast.Pass(lineno=st.lineno, col_offset=0)]
+                        changed = True
+                        continue
             for call in _hoistable_calls(st):
                 r = self.resolve(call, cname)
                 if r is None:
                     continue
                 helper, bound = r
-                if helper is owner:
+                if helper is owner or _is_generator(helper):
                     continue
                 key = id(helper)
                 if self.sites.get(key, 0) >= MAX_SITES:
